@@ -17,7 +17,7 @@ PROP_MODULES = {
     'C05': ['Props.C05'], 'C06': ['Props.C06'], 'C07': ['Props.C07'], 'C08': ['Props.C08', 'Props.C08Roundtrip'], 'C09': ['Props.C09'],
     'C10': ['Props.C10'], 'C11': ['Props.C11Align1', 'Props.C11Align2', 'Props.C11Align3', 'Props.C11Align4', 'Props.C11Align5', 'Props.C11Align6',
             'Props.C11Align7', 'Props.C11Align8', 'Props.C11'], 'C12': ['Props.C12'], 'C13': ['Props.C13'], 'C14': ['Props.C14', 'Props.C14NoCrash'],
-    'C15': ['Props.C15'], 'C16': ['Props.C16'],
+    'C15': ['Props.C15'], 'C16': ['Props.C16', 'Props.C16Epc'],
 }
 
 
